@@ -71,7 +71,7 @@ def _cnf_job(job):
     def call(w, it, f):
         wk = w.new_walker(cls, w.env)
         return it.call(it.getattr(wk, "convert"), [f])
-    res = proc.run_proc(shape, call, post=_cnf_post(shape))
+    res = proc.run_proc(shape, call, post=_cnf_post(shape), services="full")
     return [(cls.split(".")[-1], repr(shape), r.kind, str(r.detail), r.result) for r in res]
 
 
@@ -142,7 +142,7 @@ def _ack_job(job):
                                            "the result is satisfied with %s but no interpretation of %s satisfies the input "
                                            "with these values" % (dict(zip(plain, key)), funs), rs)
         return proc.ProcResult(shape, "valid", "%d interpretations" % n, rs)
-    res = proc.run_proc(shape, call, post=post)
+    res = proc.run_proc(shape, call, post=post, services="full")
     tag = repr(shape) if earlier is None else "%s on an instance that served %s before" % (repr(shape), repr(earlier))
     if chained:
         tag = "(result for %s) & %s on a second instance" % (repr(earlier), repr(shape))
@@ -226,6 +226,14 @@ def run(ctx):
     shapes += [Shape(("And", shared, ("Iff", shared, c))), Shape(("Or", ("And", a, b), ("And", ("Not", a), c))),
                Shape(("Implies", ("Iff", a, b), ("Iff", b, a))), Shape(("Not", ("Not", a))), Shape(a),
                Shape(("lit", True, BOOL)), Shape(("lit", False, BOOL)), Shape(("And", a, ("Not", a)))]
+    # sub-formulas that differ only deep down (below the depth at which the short printed form is cut off)
+    d = S("d")
+
+    def nest(t, n):
+        for _ in range(n):
+            t = ("Or", c, ("And", d, t))
+        return t
+    shapes += [Shape(("And", nest(a, 3), ("Not", nest(b, 3)))), Shape(("And", ("Not", nest(a, 3)), nest(b, 3)))]
     jobs = []
     for sh in shapes:
         jobs.append(("pysmt.rewritings.CNFizer", sh))
